@@ -16,6 +16,7 @@ import (
 	"strings"
 	"sync"
 	"sync/atomic"
+	"syscall"
 	"time"
 )
 
@@ -59,6 +60,7 @@ type Run struct {
 	inexhaustive bool
 	finishing    bool
 	ffOnce       sync.Once
+	ffStop       int32
 
 	start    time.Time
 	cap      time.Duration
@@ -110,6 +112,7 @@ func outRoot(root string) string {
 func Start(id, level string) *Run {
 	r := &Run{ID: id, Level: level, start: time.Now(), cov: map[string]any{}, counters: map[string]*int64{}, viol: map[string]V{}, root: verifRoot()}
 	debug.SetGCPercent(800)
+	go sampleDescriptors()
 	tier := flag.String("tier", envOr("VERIF_TIER", "quick"), "quick|thorough")
 	replay := flag.String("replay", "", "replay file")
 	capS := flag.Duration("cap", 0, "internal wall-clock cap (0 = tier default)")
@@ -157,6 +160,11 @@ func (r *Run) Workers() int {
 // Expired reports whether the internal cap was reached; a check that stops because
 // of it must not claim exhaustiveness (Capped is recorded automatically).
 func (r *Run) Expired() bool {
+	if atomic.LoadInt32(&r.ffStop) != 0 {
+		// fail-fast (mutation sweep): the exploration winds down like at the cap
+		atomic.StoreInt32(&r.capped, 1)
+		return true
+	}
 	if time.Since(r.start) > r.cap {
 		atomic.StoreInt32(&r.capped, 1)
 		return true
@@ -192,6 +200,16 @@ func (r *Run) MaybeReplay() {
 		r.replay = ""
 		return
 	}
+	if strings.HasPrefix(f.Key, "no-return") {
+		// recorded by the watchdog: the case did not return. It reproduces by not
+		// returning again.
+		go func() {
+			time.Sleep(StuckAfter)
+			fmt.Printf("replay of %s (%s)\nrecorded: %s\nreproduced: the case has not returned after %v\n", r.replay, f.Key, f.What, StuckAfter)
+			fmt.Printf("VIOLATION property=%s replay=%s\n", r.ID, r.replay)
+			os.Exit(1)
+		}()
+	}
 	vs := r.Replayer(f.Case)
 	fmt.Printf("replay of %s (%s)\nrecorded: %s\n", r.replay, f.Key, f.What)
 	if len(vs) == 0 {
@@ -203,6 +221,48 @@ func (r *Run) MaybeReplay() {
 	}
 	fmt.Printf("VIOLATION property=%s replay=%s\n", r.ID, r.replay)
 	os.Exit(1)
+}
+
+// openDescriptors describes what the descriptors of this process point to.
+func openDescriptors() string {
+	ents, err := os.ReadDir("/proc/self/fd")
+	if err != nil || len(ents) < 200 {
+		return ""
+	}
+	count := map[string]int{}
+	for _, e := range ents {
+		t, err := os.Readlink("/proc/self/fd/" + e.Name())
+		if err != nil {
+			continue
+		}
+		// group by kind and by the last two path elements
+		if strings.HasPrefix(t, "/") {
+			p := strings.Split(t, "/")
+			if len(p) > 2 {
+				t = ".../" + strings.Join(p[len(p)-2:], "/")
+			}
+		} else if i := strings.IndexByte(t, ':'); i > 0 {
+			t = t[:i]
+		}
+		count[t]++
+	}
+	type kv struct {
+		k string
+		n int
+	}
+	var l []kv
+	for k, n := range count {
+		l = append(l, kv{k, n})
+	}
+	sort.Slice(l, func(i, j int) bool { return l[i].n > l[j].n || l[i].n == l[j].n && l[i].k < l[j].k })
+	if len(l) > 5 {
+		l = l[:5]
+	}
+	out := fmt.Sprintf(" (%d descriptors open in this process; most frequent targets:", len(ents))
+	for _, e := range l {
+		out += fmt.Sprintf(" %dx %s", e.n, e.k)
+	}
+	return out + ")"
 }
 
 // ViolationV records a violation given as a V (keeps NoConfirm).
@@ -220,16 +280,41 @@ func (r *Run) ViolationV(v V) {
 
 // Violation records a violation (first one per key wins). Safe for concurrent use.
 func (r *Run) Violation(key, what string, c any) {
+	leak := false
+	if strings.Contains(what, "too many open files") {
+		// The process ran out of file descriptors. The harness closes what it
+		// opens (the unchanged tree runs the same cases without coming near the
+		// limit), so the code under test keeps descriptors open. Which case hits
+		// the limit depends on everything that ran before: reported as one
+		// violation of its own, not confirmed by replaying a single case.
+		key, what, leak = "descriptor-leak", "the process ran out of file descriptors while exercising the code under test: "+what+openDescriptors(), true
+	}
 	r.mu.Lock()
 	defer r.mu.Unlock()
 	if _, ok := r.viol[key]; ok || r.finishing {
 		return
 	}
+	if leak {
+		defer func() {
+			if x, ok := r.viol[key]; ok {
+				x.NoConfirm = true
+				r.viol[key] = x
+			}
+		}()
+	}
 	if os.Getenv("VERIF_FAIL_FAST") != "" {
 		// used by the mutation sweep: the first violation that is not a listed
 		// finding ends the run (after the usual confirmation)
 		if _, listed := r.known()[key]; !listed {
-			defer func() { go r.ffOnce.Do(r.Finish) }()
+			// the exploration is asked to stop (it polls Expired) and finishes in
+			// its own thread; a loop that does not poll is cut short after a while
+			atomic.StoreInt32(&r.ffStop, 1)
+			r.ffOnce.Do(func() {
+				go func() {
+					time.Sleep(90 * time.Second)
+					r.Finish()
+				}()
+			})
 		}
 	}
 	if f := os.Getenv("VERIF_DUMP_VIOLATIONS"); f != "" {
@@ -400,11 +485,25 @@ func (r *Run) Finish() {
 					}
 				}
 				if !ok {
+					if lv, leak := descriptorLeak(v.What); leak {
+						// which case trips over the exhausted descriptors depends on
+						// everything that ran before it
+						v = lv
+						break
+					}
 					Harness("flaky: violation %q did not reproduce on replay %d/5: %s", v.Key, i+1, v.What)
 				}
 			}
 		}
-		confirmed = append(confirmed, v)
+		dup := false
+		for _, c := range confirmed {
+			if c.Key == v.Key {
+				dup = true
+			}
+		}
+		if !dup {
+			confirmed = append(confirmed, v)
+		}
 	}
 	wall := time.Since(r.start).Seconds()
 	cov := map[string]any{}
@@ -501,8 +600,80 @@ func (r *Run) writeReplay(v V) string {
 // Harness reports a defect of the machinery itself: exit status 2, never a
 // VIOLATION line and never a pass.
 func Harness(format string, args ...any) {
+	if v, leak := descriptorLeak(fmt.Sprintf(format, args...)); leak && !inHarness.Swap(true) {
+		// the harness tripped over descriptors that the code under test left open
+		if IsWorker() {
+			workerFatal(v)
+		}
+		if r := current; r != nil && r.mu.TryLock() {
+			fin := r.finishing
+			r.mu.Unlock()
+			if !fin {
+				r.ViolationV(v)
+				r.Finish()
+			}
+		}
+	}
 	fmt.Printf("HARNESS-ERROR "+format+"\n", args...)
 	os.Exit(2)
+}
+
+var inHarness atomic.Bool
+
+var (
+	fdMu       sync.Mutex
+	fdPeak     int
+	fdPeakDesc string
+)
+
+// sampleDescriptors records the largest number of open descriptors seen (the
+// garbage collector closes abandoned files eventually, so the number at the
+// time somebody asks says little).
+func sampleDescriptors() {
+	for {
+		time.Sleep(200 * time.Millisecond)
+		ents, err := os.ReadDir("/proc/self/fd")
+		if err != nil {
+			return
+		}
+		fdMu.Lock()
+		if len(ents) > fdPeak {
+			fdPeak = len(ents)
+			if fdPeak >= 200 {
+				fdPeakDesc = openDescriptors()
+			}
+		}
+		fdMu.Unlock()
+	}
+}
+
+// descriptorLeak reports whether this process is close to its limit of open
+// files, and the violation that describes it. The harness closes what it opens
+// (the unchanged tree runs the same cases far below the limit), so descriptors
+// piling up belong to the code under test.
+func descriptorLeak(context string) (V, bool) {
+	var lim syscall.Rlimit
+	if syscall.Getrlimit(syscall.RLIMIT_NOFILE, &lim) != nil {
+		return V{}, false
+	}
+	ents, _ := os.ReadDir("/proc/self/fd")
+	fdMu.Lock()
+	peak, desc := fdPeak, fdPeakDesc
+	fdMu.Unlock()
+	if len(ents) >= peak {
+		peak, desc = len(ents), openDescriptors()
+	}
+	if os.Getenv("VERIF_DEBUG_FD") != "" {
+		fmt.Fprintf(os.Stderr, "descriptors: now %d peak %d limit %d\n", len(ents), peak, lim.Cur)
+	}
+	// the harnesses stay below about a hundred descriptors on the unchanged tree;
+	// abandoned files are closed by the garbage collector, so the limit itself
+	// is only touched for moments
+	if uint64(peak) < lim.Cur/2 && peak < 1000 {
+		return V{}, false
+	}
+	what := "the code under test keeps file descriptors open: the process is running out of them" + desc + "; first noticed as: " + context
+	return V{Key: "descriptor-leak", What: what, Case: map[string]any{"descriptor_leak": context}, NoConfirm: true}, true
 }
 
 // Q quotes bytes for keys and messages.
